@@ -681,6 +681,21 @@ func runFault(fr faultRunner, f fault, seed int64) faultResult {
 			seen[key] = c.Wire
 			return
 		}
+		if strings.HasSuffix(f.Kind, "@last") && c.From.Name == f.Deviator && c.Type == f.Type {
+			peers := net.New
+			if c.To.Comm == 'O' {
+				peers = net.Old
+			}
+			var last *sched.Node
+			for _, n := range peers {
+				if n.Name != f.Deviator {
+					last = n
+				}
+			}
+			if c.To != last {
+				return
+			}
+		}
 		if c.From.Name == f.Deviator && c.Type == f.Type && !c.Dup {
 			if aw, ok := altered[string(c.Wire)]; ok {
 				c.Wire = aw
@@ -720,7 +735,7 @@ func runFault(fr faultRunner, f fault, seed int64) faultResult {
 					c.Wire = donor
 					res.Applied++
 				}
-			} else if nw, ok := alterField(c.Wire, f.Field, f.Index, strings.TrimSuffix(f.Kind, "@same"), rng, donor); ok {
+			} else if nw, ok := alterField(c.Wire, f.Field, f.Index, strings.TrimSuffix(strings.TrimSuffix(f.Kind, "@same"), "@last"), rng, donor); ok {
 				c.Wire = nw
 				res.Applied++
 			}
@@ -883,6 +898,8 @@ func enumerateFaults(fr faultRunner, kinds []string, deviators []string, sampleI
 				}
 				if p2pTypes[t] && !fi.list {
 					out = append(out, fault{fr.proto, d, t, fi.name, 0, "+1@same"})
+					// only the copy addressed to the highest-index recipient is altered: one honest party objects, all the others see a clean run
+					out = append(out, fault{fr.proto, d, t, fi.name, 0, "+1@last"})
 				}
 				if fi.list {
 					out = append(out, fault{fr.proto, d, t, fi.name, -1, "empty"}, fault{fr.proto, d, t, fi.name, 0, "drop-last"}, fault{fr.proto, d, t, fi.name, 0, "append"})
@@ -1120,14 +1137,14 @@ func mustJSON(v interface{}) string { b, _ := json.Marshal(v); return string(b) 
 
 // mustBlame: (type, field) pairs whose alteration is covered by a commitment, share check or proof and must be attributed.
 var mustBlame = map[string]bool{
-	"KGRound2Message1/share": true, "KGRound2Message1/fac_proof": true, "KGRound2Message2/de_commitment": true, "KGRound2Message2/mod_proof": true,
+	"KGRound2Message1/share": true, "KGRound2Message1/facProof": true, "KGRound2Message2/de_commitment": true, "KGRound2Message2/modProof": true,
 	"KGRound2Message2/proof_alpha_x": true, "KGRound2Message2/proof_alpha_y": true, "KGRound2Message2/proof_t": true,
 	"KGRound3Message/paillier_proof": true, "KGRound1Message/dlnproof_1": true, "KGRound1Message/dlnproof_2": true,
 	"SignRound1Message1/range_proof_alice": true, "SignRound2Message/proof_bob": true, "SignRound2Message/proof_bob_wc": true,
 	"SignRound4Message/de_commitment": true, "SignRound4Message/proof_t": true, "SignRound6Message/de_commitment": true,
 	"SignRound6Message/proof_t": true, "SignRound6Message/v_proof_t": true, "SignRound6Message/v_proof_u": true,
 	"SignRound2Message/de_commitment": true, "SignRound2Message/proof_t": true,
-	"DGRound3Message1/share": true, "DGRound4Message1/fac_proof": true, "DGRound3Message2/v_decommitment": true,
+	"DGRound3Message1/share": true, "DGRound4Message1/facProof": true, "DGRound3Message2/v_decommitment": true,
 }
 
 func genFaults(r *vc.Run, prop string) {
@@ -1157,11 +1174,26 @@ func genFaults(r *vc.Run, prop string) {
 			go func() { done <- cmd.Wait() }()
 			var err error
 			timedOut := false
-			select {
-			case err = <-done:
-			case <-time.After(45 * time.Minute):
-				_ = cmd.Process.Kill()
-				timedOut = true
+			// the child has its own per-fault watchdog; the parent is only the backstop for a child that stalls altogether
+			// (no line written for 6 minutes). There is no limit on the total: on a loaded machine the thorough list of one
+			// protocol can take more than an hour, and that is not a hang.
+			lastSize, lastChange := int64(-1), time.Now()
+		wait:
+			for {
+				select {
+				case err = <-done:
+					break wait
+				case <-time.After(5 * time.Second):
+					if st, e := os.Stat(outfile); e == nil && st.Size() != lastSize {
+						lastSize, lastChange = st.Size(), time.Now()
+					}
+					if time.Since(lastChange) > 6*time.Minute {
+						_ = cmd.Process.Kill()
+						<-done
+						timedOut = true
+						break wait
+					}
+				}
 			}
 			lines := readLines(outfile)
 			lastStart, lastDone := -1, -1
@@ -1263,7 +1295,13 @@ func judgeFault(r *vc.Run, prop string, res faultResult) {
 	for node, cs := range res.Culprits {
 		for _, c := range cs {
 			if c != f.Deviator && c != node {
-				r.Violate(fmt.Sprintf("wrong-blame|%s|%s|%s|%s", f.Proto, f.Type, f.Field, f.Kind), fmt.Sprintf("%s blames %v but the deviating party is %s (%s): %s", node, cs, f.Deviator, f.String(), res.ErrText[node]), replay)
+				kind := f.Kind
+				if kind == "mirror-swap" {
+					// who is blamed by the duplicate check depends on whether the replaying party comes before or after the
+					// party it copies (the lowest other index): the key names the deviator so that the two cases stay apart
+					kind += "@" + f.Deviator
+				}
+				r.Violate(fmt.Sprintf("wrong-blame|%s|%s|%s|%s", f.Proto, f.Type, f.Field, kind), fmt.Sprintf("%s blames %v but the deviating party is %s (%s): %s", node, cs, f.Deviator, f.String(), res.ErrText[node]), replay)
 			}
 		}
 		if mustBlame[f.Type+"/"+f.Field] && f.Kind != "other" {
